@@ -294,6 +294,79 @@ def run(res, tier):
                        message='%s can call %s() when its deadline is 0: a try-lock that cannot succeed releases locks the caller holds (and must then wait to get them back) instead of failing at once '
                                'with the state unchanged' % (f.q, q.split('::')[-1]))
     res.extra['deadline_methods'] = sorted(D)
+    # (c) a try operation that fails leaves no trace: a return taken because the deadline is zero is not reachable from a registration in a waiting table (unless the entry is removed again)
+    n_tr = 0
+    for f in sorted(funcs, key=lambda f: (f.file, f.line)):
+        if f.q not in D:
+            continue
+        dp = f.params[D[f.q]]
+        regs = [c for c in f.walk() if c['k'] == 'CXXMemberCallExpr' and (c.get('q') or '') == RW + '::GetOrAllocateThreadState' and c.args() and (A.strip_casts(c.args()[0]).get('n') or '').startswith('_waiting')]
+        for r in (x for x in f.walk() if x['k'] == 'ReturnStmt'):
+            tryret = False
+            for (cn, t) in G.atoms_at(f, r):
+                z = A.zero_test(cn, t)
+                if z is not None and z[1] and z[0].get('d') == dp['d']:
+                    tryret = True
+            if not tryret:
+                continue
+            n_tr += 1
+            bad = None
+            for c in regs:
+                tbl = A.strip_casts(c.args()[0]).get('n')
+                rms = set(p_ for p_ in (P.pos_of(f, x) for x in f.walk() if x['k'] == 'CXXMemberCallExpr' and (x.get('q') or '').endswith('::Remove') and x.receiver() is not None and A.strip_casts(x.receiver()).get('n') == tbl) if p_)
+                pc, pr = P.pos_of(f, c), P.pos_of(f, r)
+                if pc and pr and ((pc[0] == pr[0] and pc[1] < pr[1]) or C.can_reach(f, pc, set([pr]), avoid_points=rms)):
+                    bad = c
+            res.ob('DEADLINE', f.where(r), '%s: the try-lock failure return at line %s leaves no entry in a waiting table' % (f.q.split('::')[-1], r.get('l')), bad is None, function=f.q,
+                   key='DEADLINE|%s|try-leaves-no-trace:%s' % (f.q, n_tr),
+                   message='%s registers the calling thread in %s (line %s) and then returns B_TIMED_OUT because the deadline is zero, without removing the entry: a failed try-lock leaves a phantom '
+                           'waiter behind, and with reader preference the next hand-off notifies only the (absent) readers while the real waiting writer sleeps for ever'
+                           % (f.q, A.strip_casts(bad.args()[0]).get('n') if bad is not None else '', bad.get('l') if bad is not None else ''))
+    if n_tr < 2:
+        raise AnalysisBroken('DEADLINE: only %d zero-deadline returns found' % n_tr)
+    # ---- COUNT-PAIR: the per-thread write count and the total write count move together
+    res.rule('COUNT-PAIR', 'every statement that raises (lowers) a thread\'s _readWriteRecurseCount is accompanied, before the function returns, by one that raises (lowers) _totalReadWriteRecurseCount '
+                           '(the reader admission test reads only the total)', floor=3)
+    n_cp = 0
+    for f in sorted(funcs, key=lambda f: (f.file, f.line)):
+        def changes(name, this_member):
+            out = {1: [], -1: []}
+            for w in f.walk():
+                tgt, sgn = None, 0
+                if w['k'] == 'UnaryOperator' and w.get('op') in ('post++', 'pre++', 'post--', 'pre--'):
+                    tgt, sgn = A.strip_casts(w['ch'][0]), (1 if '++' in w['op'] else -1)
+                elif w['k'] == 'BinaryOperator' and w.get('op') == '=' and A.strip_casts(w['ch'][1])['k'] == 'BinaryOperator' and A.strip_casts(w['ch'][1]).get('op') in ('+', '-') and A.strip_casts(A.strip_casts(w['ch'][1])['ch'][1]).get('v') == 1:
+                    tgt, sgn = A.strip_casts(w['ch'][0]), (1 if A.strip_casts(w['ch'][1])['op'] == '+' else -1)
+                if tgt is not None and tgt['k'] == 'MemberExpr' and tgt.get('n') == name and A.is_this_member(tgt) == this_member:
+                    out[sgn].append(w)
+            return out
+        per, tot = changes('_readWriteRecurseCount', False), changes('_totalReadWriteRecurseCount', True)
+        for sgn in (1, -1):
+            for w in per[sgn]:
+                n_cp += 1
+                ok = bool(tot[sgn]) and (P.must_follow(f, w, tot[sgn], escapes=P.escape_edges(f))[0] or P.must_precede(f, tot[sgn], w))
+                res.ob('COUNT-PAIR', f.where(w), '%s line %s: the total write count follows the thread\'s write count (%+d)' % (f.q.split('::')[-1], w.get('l'), sgn), ok, function=f.q,
+                       key='COUNT-PAIR|%s|%s:%d' % (f.q, '+' if sgn > 0 else '-', n_cp),
+                       message='%s changes a thread\'s _readWriteRecurseCount (%+d) at line %s on a path that does not change _totalReadWriteRecurseCount likewise: IsOkayForReaderThreadsToExecuteNow() '
+                               'reads only the total, so readers are admitted while that thread holds the write lock (or are kept out after it has released it)' % (f.q, sgn, w.get('l')))
+    if n_cp < 3:
+        raise AnalysisBroken('COUNT-PAIR: only %d changes of _readWriteRecurseCount found' % n_cp)
+    # ---- CHRONO-UNIT: MUSCLE times are microseconds
+    res.rule('CHRONO-UNIT', 'every std::chrono duration that WaitCondition builds from a run-time value is std::chrono::microseconds (all MUSCLE time values are in microseconds)', floor=1)
+    n_cu = 0
+    for g in sorted((g for g in fx.funcs.values() if g.full and g.q.startswith('muscle::WaitCondition::')), key=lambda g: (g.file, g.line)):
+        for c in g.walk():
+            if c['k'] in ('CXXConstructExpr', 'CXXTemporaryObjectExpr', 'CXXFunctionalCastExpr') and 'chrono::duration' in c.type() and c['ch'] and 'v' not in A.strip_casts(c['ch'][0]) \
+                    and A.strip_casts(c['ch'][0])['k'] not in ('CXXConstructExpr', 'CXXTemporaryObjectExpr', 'MaterializeTemporaryExpr') and 'chrono' not in A.strip_casts(c['ch'][0]).type():
+                n_cu += 1
+                t_ = c.type().replace(' ', '')
+                ok = 'ratio<1,1000000>' in t_
+                res.ob('CHRONO-UNIT', g.where(c), '%s: duration built from `%s` is in microseconds' % (g.q.split('::')[-1], c['ch'][0].text(30)), ok, how=c.type(), function=g.q,
+                       key='CHRONO-UNIT|%s|%s' % (g.q, c.get('l')),
+                       message='%s turns the time value `%s` into a %s: MUSCLE deadlines are microseconds, so a timed wait lasts a different multiple of what was asked for and timed lock '
+                               'acquisitions do not return by their deadline' % (g.q, c['ch'][0].text(30), c.type()))
+    if n_cu < 1:
+        raise AnalysisBroken('CHRONO-UNIT: no std::chrono duration built from a run-time value found in WaitCondition')
     res.explanation = ('Static decision of the reader/writer mutex\'s structural invariants: %d accesses to the state tables all under _stateMutex (must-hold lock sets, helper preconditions inferred); the '
                        'admission tests contain the exclusion conjuncts; each of the %d registrations of a new executing thread is dominated by the true edge of the matching test under the same guard object; '
                        'waits happen with the lock released, inside loops that re-test admission; every departure from the executing table or the waiter tables can reach a notify routine in the same critical '
